@@ -87,8 +87,30 @@ def _key_for(d: dict[str, str], o: dict[str, Any], kind: str) -> str:
         cause = "oversize" if o["status"] == 413 else ("undecodable-content-encoding" if d["cenc"] == "corrupt" else d["body"])
         return f"non-arrow-body-{o['status']}-{cause}"
     if kind == "200":
-        return f"200-without-dispatch-{d['body'] if d['body'] != 'valid' else d['method'] + '-' + d['token']}"
+        return "200-without-dispatch-" + _causes(d)[0]
     return kind
+
+
+def _causes(d: dict[str, str]) -> list[str]:
+    """Names of the defects of a request, most specific first (only used to build violation keys)."""
+    out = []
+    if d["body"] in ("corrupt", "corrupt_io", "truncated", "empty", "no_batch"):
+        out.append(d["body"])
+    if d["route"] != "exchange" and d["body"] in ("no_method", "method_mismatch", "no_reqversion", "bad_reqversion", "bad_traceparent", "bad_params"):
+        out.append(d["body"])
+    if d["route"] == "exchange" and d["token"] != "valid":
+        out.append(f"token-{d['token']}")
+    if d["method"] in ("mismatch", "unknown"):
+        out.append(f"method-{d['method']}")
+    if d["cenc"] in ("corrupt", "unknown"):
+        out.append(f"content-encoding-{d['cenc']}")
+    if d["ctype"] != "ok":
+        out.append(f"content-type-{d['ctype']}")
+    if d["cap"] == "on" and d["body"] == "oversize":
+        out.append("oversize")
+    if d["auth"] in ("bad", "missing"):
+        out.append(f"auth-{d['auth']}")
+    return out or ["no-defect"]
 
 
 def _oracle(ctx: Any, d: dict[str, str], o: dict[str, Any], replay: dict[str, Any]) -> None:
@@ -159,16 +181,21 @@ def run(ctx: Any) -> None:
     warnings.filterwarnings("ignore")
     translate(ctx)
     translated = ctx.obligations[-1]["ok"]
+    # the theorems about the model do not depend on the regenerated tables: built and checked on their own, so that a
+    # source change that breaks the tie does not hide that they still hold
     ctx.prove(
-        ["prop/P_C15.vo", "tie/T_HttpStatus.vo", "refuted/R_C15.vo"],
+        ["prop/P_C15.vo", "refuted/R_C15.vo"],
         {
             "P_C15": [
                 "C15_total_mapping", "C15_200_iff_dispatched", "C15_marker_iff_call_failed", "C15_refusal_status_justified",
                 "C15_no_5xx_client_controlled", "C15_decodable_body_unless_401_415", "C15_marker_only_on_failed_200", "C15_space_is_complete",
             ],
-            "T_HttpStatus": ["cfg_tie", "C15_source_total_mapping", "C15_source_no_5xx", "C15_source_decodable_body_unless_401_415", "C15_source_200_iff_dispatched"],
             "R_C15": ["C15_old_total_mapping_partial"],
         },
+    )
+    ctx.prove(
+        ["tie/T_HttpStatus.vo"],
+        {"T_HttpStatus": ["cfg_tie", "C15_source_total_mapping", "C15_source_no_5xx", "C15_source_decodable_body_unless_401_415", "C15_source_200_iff_dispatched"]},
     )
 
     logging.disable(logging.CRITICAL)  # the app logs every refused request; Falcon logs escaped exceptions with tracebacks
